@@ -1,5 +1,10 @@
 import RaftVerif.Proofs.FlowLeader
 import RaftVerif.Proofs.FlowConf
+/-!
+# Proofs/FlowAll — the frame relation `Flow` through every handler of raft.go: follower/candidate
+handlers, snapshot restore and configuration switch, campaigns, and finally `Step` itself
+(induction on the nesting fuel).  Core Lean only.
+-/
 namespace RaftVerif
 namespace Raft
 
@@ -65,11 +70,12 @@ theorem Flow.installTrk (r : Raft) (t : Tracker) (h : AllWF t.progress) : Flow r
   ⟨MsgsOK.refl r, fun _ => h⟩
 
 /-- installing a progress map whose windows are all well-formed -/
-theorem Flow.install (r : Raft) (cfg : TrackerConfig) (trk : ProgressMap) (h : AllWF trk) :
+theorem Flow.install (r : Raft) (cfg : TrackerConfig) (trk : ProgressMap) (h : WindowsOK r → AllWF trk) :
     Flow r { r with trk := { r.trk with cfg := cfg, progress := trk } } :=
-  ⟨MsgsOK.refl r, fun _ => h⟩
+  ⟨MsgsOK.refl r, fun hw => h hw⟩
 
-theorem switchToConfig_flow (cfg : TrackerConfig) (trk : ProgressMap) (htrk : AllWF trk) (r r' : Raft)
+theorem switchToConfig_flow (cfg : TrackerConfig) (trk : ProgressMap) (r r' : Raft)
+    (htrk : WindowsOK r → AllWF trk)
     (cs : ConfState) (h : (switchToConfig cfg trk).run r = .ok (cs, r')) : Flow r r' := by
   unfold switchToConfig at h
   obtain ⟨u1, r1, h1, hA⟩ := bind_ok h
@@ -154,7 +160,7 @@ theorem restore_flow (s : Snapshot) (r r' : Raft) (b : Bool) (h : (restore s).ru
           · rename_i cfg trk hrc
             obtain ⟨cs2, r4, h4, hD⟩ := bind_ok hC
             have htrk : AllWF trk := restoreConf_AllWF _ _ (cfg, trk) AllWF_nil hrc
-            refine Flow.trans (switchToConfig_flow cfg trk htrk _ _ _ h4) ?_
+            refine Flow.trans (switchToConfig_flow cfg trk _ _ (fun _ => htrk) _ h4) ?_
             · split at hD
               · obtain ⟨u5, r5, h5, hE⟩ := bind_ok hD
                 exact (throw_ok h5).elim
@@ -325,6 +331,384 @@ theorem poll_flow (id : Id) (v : Bool) (r r' : Raft) (res : Quorum.VoteResult)
     obtain ⟨r0, r2, h2, hB⟩ := bind_ok hA
     obtain ⟨e0, e1⟩ := get_ok h2; subst e0 e1
     obtain ⟨_, e⟩ := pure_ok hB; subst e; exact Flow.refl _
+
+theorem stepCandidate_flow (fuel : Nat) (m : Message) (r r' : Raft) (res : Option StepErr)
+    (h : (stepCandidate fuel m).run r = .ok (res, r')) : Flow r r' := by
+  unfold stepCandidate at h
+  dsimp only at h
+  obtain ⟨r0, r1, h1, hA⟩ := bind_ok h
+  obtain ⟨e0, e1⟩ := get_ok h1; subst e0 e1
+  generalize (if (r1.state == Role.preCandidate) = true then MsgType.preVoteResp else MsgType.voteResp) = mvt at hA
+  split at hA
+  · obtain ⟨_, e⟩ := pure_ok hA; subst e; exact Flow.refl _
+  · obtain ⟨u2, r2, h2, hB⟩ := bind_ok hA
+    obtain ⟨u3, r3, h3, hC⟩ := bind_ok hB
+    obtain ⟨_, e⟩ := pure_ok hC; subst e
+    exact (becomeFollower_flow _ _ _ _ _ h2).trans (handleAppendEntries_flow _ _ _ _ h3)
+  · obtain ⟨u2, r2, h2, hB⟩ := bind_ok hA
+    obtain ⟨u3, r3, h3, hC⟩ := bind_ok hB
+    obtain ⟨_, e⟩ := pure_ok hC; subst e
+    exact (becomeFollower_flow _ _ _ _ _ h2).trans (handleHeartbeat_flow _ _ _ _ h3)
+  · obtain ⟨u2, r2, h2, hB⟩ := bind_ok hA
+    obtain ⟨u3, r3, h3, hC⟩ := bind_ok hB
+    obtain ⟨_, e⟩ := pure_ok hC; subst e
+    exact (becomeFollower_flow _ _ _ _ _ h2).trans (handleSnapshot_flow _ _ _ _ h3)
+  · obtain ⟨_, e⟩ := pure_ok hA; subst e; exact Flow.refl _
+  · split at hA
+    · split at hA
+      · obtain ⟨_, e⟩ := pure_ok hA; subst e; exact Flow.refl _
+      · obtain ⟨vr, r2, h2, hB⟩ := bind_ok hA
+        refine Flow.trans (poll_flow _ _ _ _ _ h2) ?_
+        split at hB
+        · split at hB
+          · obtain ⟨u3, r3, h3, hC⟩ := bind_ok hB
+            obtain ⟨_, e⟩ := pure_ok hC; subst e
+            exact campaign_flow _ _ _ _ h3
+          · obtain ⟨r0, r3, h3, hC⟩ := bind_ok hB
+            obtain ⟨e0, e1⟩ := get_ok h3; subst e0 e1
+            split at hC
+            · obtain ⟨_, e⟩ := pure_ok hC; subst e; exact Flow.refl _
+            · obtain ⟨u4, r4, h4, hD⟩ := bind_ok hC
+              obtain ⟨u5, r5, h5, hE⟩ := bind_ok hD
+              obtain ⟨_, e⟩ := pure_ok hE; subst e
+              exact (becomeLeader_flow _ _ _ h4).trans (bcastAppend_appStep _ _ _ h5).toFlow
+        · obtain ⟨u3, r3, h3, hC⟩ := bind_ok hB
+          obtain ⟨_, e⟩ := pure_ok hC; subst e
+          exact becomeFollower_flow _ _ _ _ _ h3
+        · obtain ⟨_, e⟩ := pure_ok hB; subst e; exact Flow.refl _
+    · obtain ⟨_, e⟩ := pure_ok hA; subst e; exact Flow.refl _
+
+
+theorem stepFollower_flow (fuel : Nat) (m : Message) (r r' : Raft) (res : Option StepErr)
+    (h : (stepFollower fuel m).run r = .ok (res, r')) : Flow r r' := by
+  unfold stepFollower at h
+  dsimp only at h
+  obtain ⟨r0, r1, h1, hA⟩ := bind_ok h
+  obtain ⟨e0, e1⟩ := get_ok h1; subst e0 e1
+  split at hA
+  · -- prop
+    rename_i hty
+    split at hA
+    · obtain ⟨_, e⟩ := pure_ok hA; subst e; exact Flow.refl _
+    · split at hA
+      · obtain ⟨_, e⟩ := pure_ok hA; subst e; exact Flow.refl _
+      · obtain ⟨u2, r2, h2, hB⟩ := bind_ok hA
+        obtain ⟨_, e⟩ := pure_ok hB; subst e
+        exact send_flow _ (by simp [hty]) _ _ _ h2
+  · -- app
+    refine set_bind_flow hA rfl rfl rfl ?_
+    intro hB
+    obtain ⟨u3, r3, h3, hC⟩ := bind_ok hB
+    obtain ⟨_, e⟩ := pure_ok hC; subst e
+    exact handleAppendEntries_flow _ _ _ _ h3
+  · -- heartbeat
+    refine set_bind_flow hA rfl rfl rfl ?_
+    intro hB
+    obtain ⟨u3, r3, h3, hC⟩ := bind_ok hB
+    obtain ⟨_, e⟩ := pure_ok hC; subst e
+    exact handleHeartbeat_flow _ _ _ _ h3
+  · -- snap
+    refine set_bind_flow hA rfl rfl rfl ?_
+    intro hB
+    obtain ⟨u3, r3, h3, hC⟩ := bind_ok hB
+    obtain ⟨_, e⟩ := pure_ok hC; subst e
+    exact handleSnapshot_flow _ _ _ _ h3
+  · -- transferLeader
+    rename_i hty
+    split at hA
+    · obtain ⟨_, e⟩ := pure_ok hA; subst e; exact Flow.refl _
+    · obtain ⟨u2, r2, h2, hB⟩ := bind_ok hA
+      obtain ⟨_, e⟩ := pure_ok hB; subst e
+      exact send_flow _ (by simp [hty]) _ _ _ h2
+  · -- forgetLeader
+    split at hA
+    · obtain ⟨_, e⟩ := pure_ok hA; subst e; exact Flow.refl _
+    · split at hA
+      · refine set_bind_flow hA rfl rfl rfl ?_
+        intro hB
+        obtain ⟨_, e⟩ := pure_ok hB; subst e; exact Flow.refl _
+      · obtain ⟨_, e⟩ := pure_ok hA; subst e; exact Flow.refl _
+  · -- timeoutNow
+    obtain ⟨u2, r2, h2, hB⟩ := bind_ok hA
+    obtain ⟨_, e⟩ := pure_ok hB; subst e
+    exact hup_flow _ _ _ _ h2
+  · -- readIndex
+    rename_i hty
+    split at hA
+    · obtain ⟨_, e⟩ := pure_ok hA; subst e; exact Flow.refl _
+    · obtain ⟨u2, r2, h2, hB⟩ := bind_ok hA
+      obtain ⟨_, e⟩ := pure_ok hB; subst e
+      exact send_flow _ (by simp [hty]) _ _ _ h2
+  · -- readIndexResp
+    split at hA
+    · refine set_bind_flow hA rfl rfl rfl ?_
+      intro hB
+      obtain ⟨_, e⟩ := pure_ok hB; subst e; exact Flow.refl _
+    · obtain ⟨_, e⟩ := pure_ok hA; subst e; exact Flow.refl _
+  · obtain ⟨_, e⟩ := pure_ok hA; subst e; exact Flow.refl _
+
+theorem appliedToLog_flow (idx sz : Nat) (r r' : Raft) (n : Nat)
+    (h : (appliedToLog idx sz).run r = .ok (n, r')) : Flow r r' := by
+  unfold appliedToLog at h
+  obtain ⟨r0, r1, h1, hA⟩ := bind_ok h
+  obtain ⟨e0, e1⟩ := get_ok h1; subst e0 e1
+  dsimp only at hA
+  obtain ⟨l, r2, h2, hB⟩ := bind_ok hA
+  obtain ⟨_, e⟩ := liftP_ok h2; subst e
+  obtain ⟨u3, r3, h3, hC⟩ := bind_ok hB
+  obtain ⟨_, e⟩ := pure_ok hC; subst e
+  exact setLog_flow _ _ _ _ h3
+
+theorem reduceUncommittedSize_flow (s : Nat) (r r' : Raft) (u : Unit)
+    (h : (reduceUncommittedSize s).run r = .ok (u, r')) : Flow r r' := by
+  unfold reduceUncommittedSize at h
+  have e := modify_ok h; subst e; exact Flow.frame rfl rfl rfl
+
+/-- `appliedTo`, given that the nested `Step` keeps the frame -/
+theorem appliedTo_flow (fuel : Nat)
+    (ih : ∀ m r r' res, (step fuel m).run r = .ok (res, r') → Flow r r')
+    (idx sz : Nat) (r r' : Raft) (u : Unit) (h : (appliedTo fuel idx sz).run r = .ok (u, r')) :
+    Flow r r' := by
+  unfold appliedTo at h
+  dsimp only at h
+  obtain ⟨n, r1, h1, hA⟩ := bind_ok h
+  refine Flow.trans (appliedToLog_flow _ _ _ _ _ h1) ?_
+  obtain ⟨r0, r2, h2, hB⟩ := bind_ok hA
+  obtain ⟨e0, e1⟩ := get_ok h2; subst e0 e1
+  split at hB
+  · obtain ⟨x, r3, h3, hC⟩ := bind_ok hB
+    obtain ⟨_, e⟩ := pure_ok hC; subst e
+    exact ih _ _ _ _ h3
+  · obtain ⟨_, e⟩ := pure_ok hB; subst e; exact Flow.refl _
+
+theorem appliedSnap_flow (fuel : Nat)
+    (ih : ∀ m r r' res, (step fuel m).run r = .ok (res, r') → Flow r r')
+    (s : Snapshot) (r r' : Raft) (u : Unit) (h : (appliedSnap fuel s).run r = .ok (u, r')) :
+    Flow r r' := by
+  unfold appliedSnap at h
+  refine modify_bind_flow h (Flow.frame rfl rfl rfl) ?_
+  intro hA
+  exact appliedTo_flow fuel ih _ _ _ _ _ hA
+
+
+theorem step_flow_aux (fuel : Nat) : ∀ (m : Message) (r r' : Raft) (res : Option StepErr),
+    (step fuel m).run r = .ok (res, r') → Flow r r' := by
+  induction fuel with
+  | zero =>
+    intro m r r' res h
+    unfold step at h
+    exact (throw_ok h).elim
+  | succ fuel ih =>
+    intro m r r' res h
+    unfold step at h
+    obtain ⟨r0, r1, h1, hA⟩ := bind_ok h
+    obtain ⟨e0, e1⟩ := get_ok h1; subst e0 e1
+    extract_lets jN1 jN2 jSnap jN3 cand jN4 jN5 jDisp jPre force inLease jEnd at hA
+    have hN : ∀ (x : Unit) (ra : Raft), (pure none : M (Option StepErr)).run ra = .ok (res, r') → Flow ra r' := by
+      intro x ra hx
+      obtain ⟨_, e⟩ := pure_ok hx; subst e; exact Flow.refl _
+    have hSnap : ∀ (x : Unit) (ra : Raft), (jSnap x).run ra = .ok (res, r') → Flow ra r' := by
+      intro x ra hx
+      simp only [jSnap] at hx
+      split at hx
+      · obtain ⟨u2, r2, h2, hB⟩ := bind_ok hx
+        exact (appliedSnap_flow fuel ih _ _ _ _ h2).trans (hN () _ hB)
+      · exact hN () _ hx
+    have hDisp : ∀ (x : Unit) (ra : Raft), (jDisp x).run ra = .ok (res, r') → Flow ra r' := by
+      intro x ra hx
+      simp only [jDisp] at hx
+      split at hx
+      · -- hup
+        obtain ⟨r0, r2, h2, hB⟩ := bind_ok hx
+        obtain ⟨e0, e1⟩ := get_ok h2; subst e0 e1
+        split at hB
+        · obtain ⟨u3, r3, h3, hC⟩ := bind_ok hB
+          exact (hup_flow _ _ _ _ h3).trans (hN () _ hC)
+        · obtain ⟨u3, r3, h3, hC⟩ := bind_ok hB
+          exact (hup_flow _ _ _ _ h3).trans (hN () _ hC)
+      · -- storageAppendResp
+        split at hx
+        · refine modify_bind_flow hx (Flow.frame rfl rfl rfl) ?_
+          intro hB
+          exact hSnap () _ hB
+        · exact hSnap () _ hx
+      · -- storageApplyResp
+        split at hx
+        · obtain ⟨u2, r2, h2, hB⟩ := bind_ok hx
+          refine Flow.trans (appliedTo_flow fuel ih _ _ _ _ _ h2) ?_
+          obtain ⟨r0, r3, h3, hC⟩ := bind_ok hB
+          obtain ⟨e0, e1⟩ := get_ok h3; subst e0 e1
+          obtain ⟨u4, r4, h4, hD⟩ := bind_ok hC
+          exact (reduceUncommittedSize_flow _ _ _ _ h4).trans (hN () _ hD)
+        · exact hN () _ hx
+      · -- vote
+        rename_i hty
+        obtain ⟨r0, r2, h2, hB⟩ := bind_ok hx
+        obtain ⟨e0, e1⟩ := get_ok h2; subst e0 e1
+        obtain ⟨le, r3, h3, hC⟩ := bind_ok hB
+        have e := lastEntryID_ok h3; subst e
+        obtain ⟨b4, r4, h4, hD⟩ := bind_ok hC
+        obtain ⟨_, e⟩ := liftP_ok h4; subst e
+        split at hD
+        · obtain ⟨u5, r5, h5, hE⟩ := bind_ok hD
+          refine Flow.trans (send_flow _ (voteRespMsgType_ne_app _) _ _ _ h5) ?_
+          split at hE
+          · refine modify_bind_flow hE (Flow.frame rfl rfl rfl) ?_
+            intro hF; exact hN () _ hF
+          · exact hN () _ hE
+        · obtain ⟨u5, r5, h5, hE⟩ := bind_ok hD
+          exact (send_flow _ (voteRespMsgType_ne_app _) _ _ _ h5).trans (hN () _ hE)
+      · -- preVote
+        rename_i hty
+        obtain ⟨r0, r2, h2, hB⟩ := bind_ok hx
+        obtain ⟨e0, e1⟩ := get_ok h2; subst e0 e1
+        obtain ⟨le, r3, h3, hC⟩ := bind_ok hB
+        have e := lastEntryID_ok h3; subst e
+        obtain ⟨b4, r4, h4, hD⟩ := bind_ok hC
+        obtain ⟨_, e⟩ := liftP_ok h4; subst e
+        split at hD
+        · obtain ⟨u5, r5, h5, hE⟩ := bind_ok hD
+          refine Flow.trans (send_flow _ (voteRespMsgType_ne_app _) _ _ _ h5) ?_
+          split at hE
+          · refine modify_bind_flow hE (Flow.frame rfl rfl rfl) ?_
+            intro hF; exact hN () _ hF
+          · exact hN () _ hE
+        · obtain ⟨u5, r5, h5, hE⟩ := bind_ok hD
+          exact (send_flow _ (voteRespMsgType_ne_app _) _ _ _ h5).trans (hN () _ hE)
+      · -- role dispatch
+        obtain ⟨r0, r2, h2, hB⟩ := bind_ok hx
+        obtain ⟨e0, e1⟩ := get_ok h2; subst e0 e1
+        split at hB
+        · exact stepLeader_flow _ _ _ _ _ hB
+        · exact stepCandidate_flow _ _ _ _ _ hB
+        · exact stepCandidate_flow _ _ _ _ _ hB
+        · exact stepFollower_flow _ _ _ _ _ hB
+    have hPre : ∀ (x : Unit) (ra : Raft), (jPre x).run ra = .ok (res, r') → Flow ra r' := by
+      intro x ra hx
+      simp only [jPre] at hx
+      split at hx
+      · exact hDisp () _ hx
+      · split at hx
+        · exact hDisp () _ hx
+        · split at hx
+          · obtain ⟨u2, r2, h2, hB⟩ := bind_ok hx
+            exact (becomeFollower_flow _ _ _ _ _ h2).trans (hDisp () _ hB)
+          · obtain ⟨u2, r2, h2, hB⟩ := bind_ok hx
+            exact (becomeFollower_flow _ _ _ _ _ h2).trans (hDisp () _ hB)
+    split at hA
+    · exact hDisp () _ hA
+    · split at hA
+      · split at hA
+        · split at hA
+          · obtain ⟨_, e⟩ := pure_ok hA; subst e; exact Flow.refl _
+          · exact hPre () _ hA
+        · exact hPre () _ hA
+      · split at hA
+        · split at hA
+          · obtain ⟨u2, r2, h2, hB⟩ := bind_ok hA
+            exact (send_flow _ (by simp) _ _ _ h2).trans (hN () _ hB)
+          · split at hA
+            · obtain ⟨u2, r2, h2, hB⟩ := bind_ok hA
+              exact (send_flow _ (by simp) _ _ _ h2).trans (hN () _ hB)
+            · split at hA
+              · split at hA
+                · obtain ⟨u2, r2, h2, hB⟩ := bind_ok hA
+                  exact (appliedSnap_flow fuel ih _ _ _ _ h2).trans (hN () _ hB)
+                · exact hN () _ hA
+              · exact hN () _ hA
+        · exact hDisp () _ hA
+
+theorem applyConfChange_flow (cc : ConfChangeV2) (r r' : Raft) (cs : ConfState)
+    (h : (applyConfChange cc).run r = .ok (cs, r')) : Flow r r' := by
+  unfold applyConfChange at h
+  obtain ⟨r0, r1, h1, hA⟩ := bind_ok h
+  obtain ⟨e0, e1⟩ := get_ok h1; subst e0 e1
+  dsimp only at hA
+  split at hA
+  · exact (throw_ok hA).elim
+  · rename_i cfg trk hres
+    refine switchToConfig_flow cfg trk _ _ ?_ _ hA
+    intro hw
+    have hall : AllWF r1.trk.progress := hw
+    split at hres
+    · exact Changer.leaveJoint_AllWF _ (cfg, trk) hall hres
+    · split at hres
+      · exact Changer.enterJoint_AllWF _ _ _ (cfg, trk) hall hres
+      · exact Changer.simple_AllWF _ _ (cfg, trk) hall hres
+
+theorem pastElectionTimeout_ok {r r1 : Raft} {b : Bool} (h : pastElectionTimeout.run r = .ok (b, r1)) : r1 = r := by
+  unfold pastElectionTimeout at h
+  obtain ⟨r0, r2, h2, hB⟩ := bind_ok h
+  obtain ⟨e0, e1⟩ := get_ok h2; subst e0 e1
+  exact (pure_ok hB).2
+
+theorem tickElection_flow (r r' : Raft) (u : Unit) (h : tickElection.run r = .ok (u, r')) : Flow r r' := by
+  unfold tickElection at h
+  refine modify_bind_flow h (Flow.frame rfl rfl rfl) ?_
+  intro hA
+  obtain ⟨b1, r1, h1, hB⟩ := bind_ok hA
+  have e := promotable_ok h1; subst e
+  obtain ⟨b2, r2, h2, hC⟩ := bind_ok hB
+  have e2 := pastElectionTimeout_ok h2; subst e2
+  split at hC
+  · refine modify_bind_flow hC (Flow.frame rfl rfl rfl) ?_
+    intro hD
+    obtain ⟨r0, r3, h3, hE⟩ := bind_ok hD
+    obtain ⟨e0, e1⟩ := get_ok h3; subst e0 e1
+    obtain ⟨x, r4, h4, hF⟩ := bind_ok hE
+    obtain ⟨_, e⟩ := pure_ok hF; subst e
+    exact step_flow_aux _ _ _ _ _ h4
+  · obtain ⟨_, e⟩ := pure_ok hC; subst e; exact Flow.refl _
+
+
+theorem tickHeartbeat_flow (r r' : Raft) (u : Unit) (h : tickHeartbeat.run r = .ok (u, r')) : Flow r r' := by
+  unfold tickHeartbeat at h
+  refine modify_bind_flow h (Flow.frame rfl rfl rfl) ?_
+  intro hA
+  obtain ⟨r0, r1, h1, hB⟩ := bind_ok hA
+  obtain ⟨e0, e1⟩ := get_ok h1; subst e0 e1
+  extract_lets jTail jMid at hB
+  have hTail : ∀ (x : Unit) (ra : Raft), (jTail x).run ra = .ok (u, r') → Flow ra r' := by
+    intro x ra hx
+    simp only [jTail] at hx
+    obtain ⟨r0, r6, h6, hH⟩ := bind_ok hx
+    obtain ⟨e0, e1⟩ := get_ok h6; subst e0 e1
+    split at hH
+    · obtain ⟨_, e⟩ := pure_ok hH; subst e; exact Flow.refl _
+    · obtain ⟨r0, r7, h7, hI⟩ := bind_ok hH
+      obtain ⟨e0, e1⟩ := get_ok h7; subst e0 e1
+      split at hI
+      · refine modify_bind_flow hI (Flow.frame rfl rfl rfl) ?_
+        intro hJ
+        obtain ⟨y, r8, h8, hK⟩ := bind_ok hJ
+        obtain ⟨_, e⟩ := pure_ok hK; subst e
+        exact step_flow_aux _ _ _ _ _ h8
+      · obtain ⟨_, e⟩ := pure_ok hI; subst e; exact Flow.refl _
+  have hMid : ∀ (x : Unit) (ra : Raft), (jMid x).run ra = .ok (u, r') → Flow ra r' := by
+    intro x ra hx
+    simp only [jMid] at hx
+    obtain ⟨r0, r5, h5, hG⟩ := bind_ok hx
+    obtain ⟨e0, e1⟩ := get_ok h5; subst e0 e1
+    split at hG
+    · obtain ⟨u6, r6, h6, hH⟩ := bind_ok hG
+      exact (abortLeaderTransfer_flow _ _ _ h6).trans (hTail () _ hH)
+    · exact hTail () _ hG
+  split at hB
+  · refine modify_bind_flow hB (Flow.frame rfl rfl rfl) ?_
+    intro hC
+    split at hC
+    · obtain ⟨y, r4, h4, hF⟩ := bind_ok hC
+      exact (step_flow_aux _ _ _ _ _ h4).trans (hMid () _ hF)
+    · exact hMid () _ hC
+  · exact hTail () _ hB
+
+theorem tick_flow (r r' : Raft) (u : Unit) (h : tick.run r = .ok (u, r')) : Flow r r' := by
+  unfold tick at h
+  obtain ⟨r0, r1, h1, hA⟩ := bind_ok h
+  obtain ⟨e0, e1⟩ := get_ok h1; subst e0 e1
+  split at hA
+  · exact tickHeartbeat_flow _ _ _ hA
+  · exact tickElection_flow _ _ _ hA
 
 end Raft
 end RaftVerif
